@@ -155,6 +155,43 @@ func checkC01(e *Engine, r *Report) {
 			func(in ssa.Instruction) bool { return isCallOfObj(in, acct) }, nil)
 	}
 
+	if rs := e.Fn(pkgTA, "supply.Reserve"); rs != nil {
+		acct := e.objs(pkgTA, "Grant.AccountAllocateCPU", "grant.AccountAllocateCPU")
+		r.MustPass("R1:grant-propagated@Reserve", "R6+R1 propagation", "every grant Reserve re-instates has been propagated through the tree (AccountAllocateCPU), like a freshly allocated one", rs, nil, e.maySucceed,
+			func(in ssa.Instruction) bool {
+				return isCallOfObj(in, acct) && paramIndex(callArgs(in.(ssa.CallInstruction))[0]) == 1
+			}, nil)
+		// the grant's CPUs are taken out of the supply only when the supply really holds them
+		fI, fS := e.Field(pkgTA, "supply", "isolated"), e.Field(pkgTA, "supply", "sharable")
+		for _, f := range []*types.Var{fI, fS} {
+			f := f
+			notContained := func(cond ssa.Value) (bool, bool) {
+				c, ok := cond.(*ssa.Call)
+				if !ok {
+					return false, false
+				}
+				fn := c.Common().StaticCallee()
+				if fn == nil || fn.Pkg == nil || fn.Pkg.Pkg.Path() != pkgK8sCpuset || fn.Name() != "Equals" {
+					return false, false
+				}
+				// `supply.<f> ∩ X == X`
+				if ic, ok := c.Common().Args[0].(*ssa.Call); ok && ic.Common().StaticCallee() != nil && ic.Common().StaticCallee().Name() == "Intersection" {
+					for _, a := range ic.Common().Args {
+						if g, _ := loadedField(a); g == f {
+							return true, false
+						}
+					}
+				}
+				return false, false
+			}
+			r.Unreachable("R2:reserve-only-contained-cpus#"+f.Name(), "R6+R1 propagation", "Reserve removes a grant's CPUs from the supply's "+f.Name()+" set only when the containment test (`"+f.Name()+" ∩ X equals X`) succeeded", rs, nil,
+				func(in ssa.Instruction) bool {
+					st, ok := in.(*ssa.Store)
+					return ok && fieldOfAddr(st.Addr) == f
+				}, notContained)
+		}
+	}
+
 	// ---- rule 3: frame lemmas ------------------------------------------------------------------
 	supplyT := e.Named(pkgTA, "supply")
 	fIso, fSha, fRes := e.Field(pkgTA, "supply", "isolated"), e.Field(pkgTA, "supply", "sharable"), e.Field(pkgTA, "supply", "reserved")
@@ -377,6 +414,27 @@ func checkC01(e *Engine, r *Report) {
 			}
 		}
 		checkRepinCoverage(e, r)
+		// unless the triggering grant is of the reserved class, the loop over the grants is always reached
+		{
+			cpuReservedK, _ := e.TypesPkg(pkgTA).Scope().Lookup("cpuReserved").(*types.Const)
+			notReserved := func(cond ssa.Value) (bool, bool) {
+				b, ok := cond.(*ssa.BinOp)
+				if !ok || (b.Op != token.EQL && b.Op != token.NEQ) || !isConstEq(b.Y, cpuReservedK) {
+					return false, false
+				}
+				return true, b.Op == token.NEQ
+			}
+			var rng ssa.Instruction
+			AllInstrsOf(usa, func(in ssa.Instruction) {
+				if rg, ok := in.(*ssa.Range); ok {
+					if f, _ := loadedField(rg.X); f != nil && f.Name() == "grants" {
+						rng = in
+					}
+				}
+			})
+			bp := FindPath(PathQuery{Fn: usa, Assume: notReserved, Block: func(x ssa.Instruction) bool { return x == rng }, Target: func(x ssa.Instruction) bool { _, ok := x.(*ssa.Return); return ok }})
+			r.Check("R1:repin-loop-always-reached", "R1 re-pin after every change", "updateSharedAllocations returns early only for a reserved-class grant; otherwise it always reaches the loop over the grants", e.Pos(usa.Pos()), usa, rng != nil && bp == nil, e.pathString(bp), true)
+		}
 		r.Check("R1:repin-visits-all-grants", "R1 re-pin after every change", "updateSharedAllocations iterates over every grant and never returns from inside the loop", e.Pos(usa.Pos()), usa, okAll, "", true)
 	}
 
